@@ -404,12 +404,42 @@ for V_k, V_i in V_d.items():
             cds = [n for n in ast.walk(f.node) if isinstance(n, ast.Call) and isinstance(n.func, ast.Attribute)
                    and n.func.attr == 'create_dataset' and unparse(n.func.value) == 'self._entry']
             ok = False
+            why = ''
+            # the value written is the value given: the parameter itself, never re-bound on the way (a conversion such
+            # as np.ascontiguousarray / np.atleast_1d changes the stored shape of 0-d arrays)
+            stores = {}
+            for n in ast.walk(f.node):
+                if isinstance(n, ast.Name) and isinstance(n.ctx, ast.Store):
+                    stores.setdefault(n.id, 0)
+                    stores[n.id] += 1
+            assigns = {n.targets[0].id: n.value for n in ast.walk(f.node) if isinstance(n, ast.Assign) and
+                       len(n.targets) == 1 and isinstance(n.targets[0], ast.Name)}
+
+            def resolve(x, depth=0):
+                while isinstance(x, ast.Name) and x.id not in ps and stores.get(x.id) == 1 and x.id in assigns and depth < 5:
+                    x = assigns[x.id]
+                    depth += 1
+                return x
             for c in cds:
                 data = [k.value for k in c.keywords if k.arg == 'data']
-                if c.args and unparse(c.args[0]) in ('str(%s)' % ps[1], ps[1]) and data and unparse(data[0]) == ps[2]:
+                name = resolve(c.args[0]) if c.args else None
+                if name is not None and unparse(name) in ('str(%s)' % ps[1], ps[1]) and data and \
+                        unparse(resolve(data[0])) == ps[2]:
                     ok = True
-            R.check('4.h5', 'ARG', site, '%s stores the given value under the given name' % nm, ok,
-                    key=nm, detail='create_dataset call differs', loc=f.loc())
+                    for k in c.keywords:
+                        if k.arg in ('shape', 'dtype') and unparse(resolve(k.value)) != '%s.%s' % (ps[2], k.arg):
+                            ok = False
+                            why = '%s=%s' % (k.arg, unparse(k.value))
+            # np.asarray / np.asanyarray return an ndarray argument itself: re-binding through them converts nothing
+            ident = sum(1 for n in ast.walk(f.node) if isinstance(n, ast.Assign) and len(n.targets) == 1 and
+                        isinstance(n.targets[0], ast.Name) and n.targets[0].id == ps[2] and
+                        isinstance(n.value, ast.Call) and unparse(n.value.func).split('.')[-1] in ('asarray', 'asanyarray')
+                        and len(n.value.args) == 1 and not n.value.keywords and unparse(n.value.args[0]) == ps[2])
+            if stores.get(ps[2], 0) - ident or stores.get(ps[1]):
+                ok = False
+                why = 'the parameter is re-bound before it is written'
+            R.check('4.h5', 'ARG', site, '%s stores the given value, unconverted, under the given name' % nm, ok,
+                    key=nm + ' ' + why, detail='create_dataset call differs %s' % why, loc=f.loc())
 
 
 def run(ix, R):
